@@ -1,0 +1,5 @@
+//go:build !verif
+
+package genql
+
+func verifStage(*Query, string, any) {}
